@@ -989,9 +989,42 @@ def fold_accumulator_loops(tree: ast.Module) -> int:
                         del lst[i + 1]
                         n += 1
                         continue
+                # `x = <fresh container>` directly followed by `x.extend(<fresh list>)` / `x.update(<fresh dict or set>)` is `x = A + B` / `x = A | B`
+                cur = lst[i]
+                if isinstance(cur, ast.Assign) and len(cur.targets) == 1 and isinstance(cur.targets[0], ast.Name) and isinstance(nxt, ast.Expr) and isinstance(nxt.value, ast.Call) \
+                        and isinstance(nxt.value.func, ast.Attribute) and isinstance(nxt.value.func.value, ast.Name) and nxt.value.func.value.id == cur.targets[0].id \
+                        and len(nxt.value.args) == 1 and not nxt.value.keywords:
+                    name = cur.targets[0].id
+                    k0, k1 = _fresh_kind(cur.value), _fresh_kind(nxt.value.args[0])
+                    meth = nxt.value.func.attr
+                    if k0 is not None and k0 == k1 and (k0, meth) in (("list", "extend"), ("dict", "update"), ("set", "update")) \
+                            and name not in {x.id for x in ast.walk(nxt.value.args[0]) if isinstance(x, ast.Name)}:
+                        merged = ast.BinOp(left=cur.value, op=ast.Add() if k0 == "list" else ast.BitOr(), right=nxt.value.args[0])
+                        ann = getattr(cur.value, "_ann", None)
+                        cur.value = ast.copy_location(merged, cur.value)
+                        if ann is not None:
+                            cur.value._ann = ann
+                        del lst[i + 1]
+                        n += 1
+                        continue
                 i += 1
     ast.fix_missing_locations(tree)
     return n
+
+
+def _fresh_kind(e: ast.AST) -> Optional[str]:
+    """list | dict | set when the expression builds a new container of that kind (display, comprehension, or a merge of such)"""
+    if isinstance(e, (ast.ListComp, ast.List)):
+        return "list"
+    if isinstance(e, (ast.DictComp, ast.Dict)):
+        return "dict"
+    if isinstance(e, (ast.SetComp, ast.Set)):
+        return "set"
+    if isinstance(e, ast.BinOp) and isinstance(e.op, (ast.Add, ast.BitOr)):
+        a, b = _fresh_kind(e.left), _fresh_kind(e.right)
+        if a is not None and a == b and ((a == "list") == isinstance(e.op, ast.Add)):
+            return a
+    return None
 
 
 # --------------------------------------------------------------------------------------------------------------------------
